@@ -516,7 +516,17 @@ func checkC18(c *Ctx) {
 	}
 	c.strategyKeyAgreement()
 	levels, formats := c.loggingTables()
-	parseLevel := c.switchStrings(p.Fn("internal/logging", "", "parseLevel"))
+	plFn := p.Fn("internal/logging", "", "parseLevel")
+	if plFn == nil {
+		for _, fn := range p.Funcs {
+			if pk := fnPkg(fn); pk != nil && strings.HasSuffix(pk.Pkg.Path(), "/internal/logging") {
+				if ks := c.switchStrings(fn); contains(ks, "debug") && contains(ks, "warn") {
+					plFn = fn
+				}
+			}
+		}
+	}
+	parseLevel := c.switchStrings(plFn)
 	var unhandled []string
 	for _, l := range levels {
 		if l != "info" && !contains(parseLevel, l) {
@@ -609,6 +619,8 @@ func (c *Ctx) switchStrings(fn *ssa.Function) []string {
 	instrsOf(fn, func(in ssa.Instruction) {
 		if b, ok := in.(*ssa.BinOp); ok && b.Op.String() == "==" {
 			if s, ok := constStr(b.Y); ok {
+				out = append(out, s)
+			} else if s, ok := constStr(b.X); ok {
 				out = append(out, s)
 			}
 		}
@@ -923,7 +935,7 @@ func (c *Ctx) strategyKeyAgreement() {
 	p := c.P
 	construct := "validateLoadBalancer-vs-createStrategy/key"
 	val := p.Fn("internal/config", "Config", "validateLoadBalancer")
-	cre := p.Fn("internal/loadbalancer", "", "createStrategy")
+	cre := c.strategyFactory()
 	if val == nil || cre == nil {
 		c.Missing("enum-agreement", construct)
 		return
@@ -941,7 +953,7 @@ func (c *Ctx) strategyKeyAgreement() {
 	var tags []string
 	instrsOf(cre, func(in ssa.Instruction) {
 		if b, ok := in.(*ssa.BinOp); ok && b.Op == token.EQL {
-			if _, isStr := constStr(b.Y); isStr {
+			if sv, isStr := constStr(b.Y); isStr && strings.Contains(sv, "_") {
 				tags = append(tags, p.Desc(b.X, nil))
 			}
 		}
@@ -960,14 +972,23 @@ func (c *Ctx) strategyKeyAgreement() {
 	}
 	args = uniqueStrings(args)
 	vKeys = uniqueStrings(vKeys)
-	if len(vKeys) != 1 || len(tags) != 1 || len(args) == 0 || len(cre.Params) != 1 {
+	if len(args) == 0 && len(tags) == 1 && !strings.Contains(tags[0], "param:") {
+		args = []string{""} // the dispatch is inline: the tag is already expressed in configuration terms
+	}
+	if len(vKeys) != 1 || len(tags) != 1 || len(args) == 0 {
 		c.Undecided("enum-agreement", construct, p.Pos(val.Pos()), fmt.Sprintf("cannot identify one lookup key / one switch tag (validator keys %v, createStrategy tags %v, call-site arguments %v)", vKeys, tags, args))
 		return
 	}
-	prm := "param:" + cre.Params[0].Name()
+	prm := "param:?"
+	if len(cre.Params) == 1 {
+		prm = "param:" + cre.Params[0].Name()
+	}
 	var bad []string
 	for _, a := range args {
-		consumed := strings.ReplaceAll(tags[0], prm, a)
+		consumed := tags[0]
+		if a != "" {
+			consumed = strings.ReplaceAll(tags[0], prm, a)
+		}
 		// compare modulo the struct the field is read from (config.Config vs. a copy): field descriptors carry no base
 		if consumed != vKeys[0] {
 			bad = append(bad, fmt.Sprintf("validation looks the strategy up as %s but the balancer dispatches on %s: a spelling only one of them normalises is accepted and then runs the default strategy", vKeys[0], consumed))
